@@ -2,12 +2,14 @@ import IceModel.Props.C04
 /-
   The segment `New` returns WITHOUT going through a file.
 
-    New                      new.go:40-84    ↦ `initSegment`
+    New                      new.go:40-90    ↦ `initSegment` (`initSegmentV0`: before commit 6ad80a3)
+    footerCRC                write.go:202-211 ↦ `footerCRC`
     interim.convert          new.go:252-316  ↦ `convert`  (= `serialize` + the two tables it returns)
-    initSegmentBase          new.go:86-112   ↦ the tail of `initSegment`
+    initSegmentBase          new.go:92-116   ↦ the tail of `initSegment`
 
   `convert` returns, besides the footer, `dictOffsets` and `storedFieldChunkOffsets`; `New` fills in
-  `footer.crc = s.w.Sum32()` (checksum of the data section), `chunkMode`, `numDocs`, and
+  `footer.crc = s.w.Sum32()` (checksum of the data section), `chunkMode`, `numDocs`, replaces
+  `footer.crc` by `footerCRC(footer)` (the checksum `persistFooter` will write; since 6ad80a3), and
   `initSegmentBase` builds the `Segment` from the builder's tables (`FieldsInv`, `FieldDocs`,
   `FieldFreqs`), the two tables of `convert`, the data section as memory-backed `segment.Data`, and
   runs `loadDvReaders` on it.  Nothing is parsed.
@@ -40,15 +42,48 @@ def convert (K : Codecs) (L : LSeg) : Res (Bytes × Footer × List Nat × List N
       docValueOffset := dvOff, chunkMode := L.chunkMode, version := 2, crc := 0 },
     dictLocs, so.chunkOffsets)
 
-/-- `New` from `convert` on: the footer gets the checksum of the data section (`s.w.Sum32()`;
-    `numDocs` and `chunkMode`, which `New` also fills in, are already in the footer value of the
-    model), and `initSegmentBase` assembles the segment: memory-backed data, the builder's field
-    tables (`FieldDocs` / `FieldFreqs` are maps in Go; entry `i` of the lists is the map lookup
-    with its zero default, which is also what `persistFields` writes), the tables of `convert`,
-    and the doc-value readers `loadDvReaders` opens on the data section. -/
-def initSegment (K : Codecs) (L : LSeg) : Res Loaded := do
+/-- `New` from `convert` on, BEFORE commit 6ad80a3: the footer gets the checksum of the data
+    section (`s.w.Sum32()`; `numDocs` and `chunkMode`, which `New` also fills in, are already in
+    the footer value of the model), and `initSegmentBase` assembles the segment: memory-backed
+    data, the builder's field tables (`FieldDocs` / `FieldFreqs` are maps in Go; entry `i` of the
+    lists is the map lookup with its zero default, which is also what `persistFields` writes),
+    the tables of `convert`, and the doc-value readers `loadDvReaders` opens on the data section.
+    `Segment.CRC()` of this segment is the checksum of the data section - not what a segment
+    loaded from the persisted file reports (`C04_new_crc_v0_counterexample`). -/
+def initSegmentV0 (K : Codecs) (L : LSeg) : Res Loaded := do
   let (data, ft, dictOffsets, storedFieldChunkOffsets) ← convert K L
   let footer : Footer := { ft with crc := K.crc.upd 0 data }
+  let d : Data := { bytes := data, mem := true }
+  let fieldsInv := L.fields.map (·.name)
+  let dvr ← loadDvReaders d footer fieldsInv
+  return { data := d, footer := footer, fieldsInv := fieldsInv, dictLocs := dictOffsets,
+           fieldDocs := L.fields.map (·.fieldDocs), fieldFreqs := L.fields.map (·.fieldFreqs),
+           storedChunkOffsets := storedFieldChunkOffsets, dvReaders := dvr }
+
+/-- `footerCRC` (write.go:202-211): `persistFooter` into a buffer - seeded with `footer.crc`, the
+    checksum of the data section -, the last four of its 44 bytes as a big-endian `uint32`.
+    (`persistFooter` into a `bytes.Buffer` cannot fail; the error branch of `New` is dead.) -/
+def footerCRC (h : CRC) (f : Footer) : Nat := unbe ((persistFooter h f).drop 40)
+
+/-- `footerCRC` of a footer holding the checksum of the data section is the checksum of the data
+    section followed by the 40 footer-field bytes: what `parseFooter` reads back from the file
+    (`C04_footer`, `loadedFooter`) -/
+theorem footerCRC_eq (K : Codecs) (data : Bytes) (ft : Footer) :
+    footerCRC K.crc { ft with crc := K.crc.upd 0 data } = K.crc.upd 0 (data ++ footerFields ft) := by
+  have hlen : (footerFields { ft with crc := K.crc.upd 0 data }).length = 40 := by
+    simp [footerFields, Ice.Props.C11.be_length]
+  unfold footerCRC persistFooter
+  rw [List.drop_left' hlen, Ice.Props.C11.unbe_be 4 _ (K.crc_lt _ _), K.crc.upd_append]
+  rfl
+
+/-- `New` from `convert` on (new.go, after commit 6ad80a3): `footer.crc = s.w.Sum32()`, then
+    `footer.crc, err = footerCRC(footer)` - the in-memory segment reports the checksum its
+    persisted file will end with -, and `initSegmentBase` assembles the segment as in
+    `initSegmentV0`. -/
+def initSegment (K : Codecs) (L : LSeg) : Res Loaded := do
+  let (data, ft, dictOffsets, storedFieldChunkOffsets) ← convert K L
+  let footer0 : Footer := { ft with crc := K.crc.upd 0 data }
+  let footer : Footer := { footer0 with crc := footerCRC K.crc footer0 }
   let d : Data := { bytes := data, mem := true }
   let fieldsInv := L.fields.map (·.name)
   let dvr ← loadDvReaders d footer fieldsInv
